@@ -47,6 +47,7 @@ func run(c *core.Ctx) {
 	k.runSplatValues()
 	k.runAfterFailedWrite()
 	k.runLoadAfterReplace()
+	k.runAfterFailedRead()
 	if c.Expired() {
 		return
 	}
@@ -81,6 +82,9 @@ func replay(c *core.Ctx) {
 	case "load-after-replace":
 		k.idx = -1 << 30
 		k.runLoadAfterReplaceReplay()
+	case "after-failed-read":
+		k.idx = -1 << 30
+		k.runAfterFailedReadReplay()
 	case "splat-ladder":
 		k.splatCase(ladderCloud(cs.N), "replay", cs)
 	case "spz":
